@@ -696,3 +696,70 @@ def rabbit_bounce_rules(ctx: Ctx, rule: str) -> None:
         ctx.check(not (after & set(keeps)), rule, f, f"{unparse(r.ast)[:60]}: a bounced delivery is not kept", "return after the bounce",
                   "rabbitmq on_new_message goes on after bouncing a delivery and also registers / hands out that message: the server redelivers it to another consumer while this one "
                   "keeps a copy - the message is held twice and a successful job runs twice", node=r, instance=f"rabbitmq bounce ends delivery: line {r.lineno}")
+
+
+def rabbit_consume_keeps_fetched(ctx: Ctx, rule: str) -> None:
+    """_RabbitConsumer.consume races `queue.get()` against the server-side-cancel event. A get that completed HAS removed a message from the local queue;
+    whatever else happened in the same iteration (cancel event set, restart needed), that message must be returned - any path that loops again or
+    awaits the restart first drops it (its delivery tag stays registered, nobody ever acks it)."""
+    f = ctx.func(f"{C.RABBIT_CONS}.consume")
+    g = ctx.cfg(f)
+    gets = [t.id for n in ast.walk(f.node) if isinstance(n, ast.Assign) and isinstance(n.value, ast.Call) and (dotted(n.value.func) or "").endswith("create_task")
+            and any(isinstance(c, ast.Call) and isinstance(c.func, ast.Attribute) and c.func.attr == "get" and "queue" in unparse(c.func.value) for c in ast.walk(n.value))
+            for t in n.targets if isinstance(t, ast.Name)]
+    ctx.require(len(gets) == 1, f"{f.qualname}: the task wrapping queue.get() not found")
+    gt = gets[0]
+    waits = [n for n in g.nodes if n.kind == "await" and isinstance(n.ast, ast.Await) and isinstance(n.ast.value, ast.Call) and (dotted(n.ast.value.func) or "").endswith("asyncio.wait")]
+    ctx.require(len(waits) == 1, f"{f.qualname}: asyncio.wait(...) not found")
+
+    def env(text, node):
+        if isinstance(node, ast.Call) and isinstance(node.func, ast.Attribute) and dotted(node.func.value) == gt:
+            return {"done": True, "cancelled": False}.get(node.func.attr)
+        if isinstance(node, ast.Call) and isinstance(node.func, ast.Attribute) and node.func.attr == "is_set":
+            return True  # ... and the server-side cancel arrived in the same iteration
+        if isinstance(node, ast.Attribute) and node.attr.endswith("is_consuming"):
+            return True
+        return None
+
+    r = flow.reach_under(g, {"*fetched": env}, flow.NORMAL_KINDS, start=waits[0].id)
+    rets = [n for n in g.nodes if n.kind == "return" and n.id in r and isinstance(n.ast, ast.Return) and n.ast.value is not None and gt in C.names_in(n.ast.value)]
+    # before that return nothing may suspend or loop: reach the return without passing another await
+    others = [n.id for n in g.nodes if n.id in r and n.id != waits[0].id and (flow.is_suspension(n) or (n.kind == "stmt" and isinstance(n.ast, ast.Continue)))]
+    ok = bool(rets) and all(flow.must_pass(g, waits[0].id, [o], [x.id for x in rets], flow.NORMAL_KINDS) for o in others)
+    ctx.check(ok, rule, f, "a completed queue.get() is returned before anything else in that iteration", f"return {gt}.result() first",
+              f"rabbitmq consume(): with the get task completed AND the server-side cancel event set, the code reaches {[g.nodes[o].label[:40] for o in others][:3]} without returning "
+              f"{gt}.result(): the fetched message is dropped (removed from the local queue, never handed out, its delivery tag orphaned)", instance="rabbitmq consume keeps the fetched message")
+
+
+def redis_scan_exhaustive(ctx: Ctx, rule: str) -> None:
+    """The Redis fetch pages through the whole list / sorted set until a page comes back empty: messages of foreign topics in front must not hide the
+    consumer's own messages behind them. The paging loop therefore ends only on 'page empty' (or by returning a name) - any further bound on the
+    number of pages makes everything behind the first pages unreachable while those pages hold nothing for this consumer."""
+    f = ctx.func(f"{C.REDIS_CONS}.__fetch_message_name")
+    loops = [w for w in C.own_nodes(f) if isinstance(w, ast.While)]
+    ctx.require(len(loops) == 1, f"{f.qualname}: the paging loop not found")
+    lp = loops[0]
+
+    def atoms(e):
+        if isinstance(e, ast.BoolOp) and isinstance(e.op, ast.And):
+            for v in e.values:
+                yield from atoms(v)
+        else:
+            yield e
+
+    ats = list(atoms(lp.test))
+    names_var = None
+    for a in ats:
+        pos = ast.UnaryOp(op=ast.Not(), operand=a)
+        em = C.emptiness_test(pos)  # `while names` / `while len(names) > 0` == not empty(names)
+        if isinstance(a, ast.Compare) and isinstance(a.left, ast.Call) and isinstance(a.left.func, ast.Name) and a.left.func.id == "len" and isinstance(a.comparators[0], ast.Constant):
+            if (type(a.ops[0]), a.comparators[0].value) in ((ast.Gt, 0), (ast.NotEq, 0), (ast.GtE, 1)):
+                names_var = dotted(a.left.args[0])
+        elif isinstance(a, ast.Name):
+            names_var = a.id
+    extra = [unparse(a) for a in ats if not ((isinstance(a, ast.Name) and a.id == names_var) or (isinstance(a, ast.Compare) and names_var and names_var in unparse(a) and "len(" in unparse(a)))]
+    brk = [x for st in lp.body for x in ast.walk(st) if isinstance(x, ast.Break)]
+    ctx.check(names_var is not None and not extra and not brk, rule, f, "redis fetch pages until a page is empty", f"while <page not empty> ({unparse(lp.test)})",
+              f"redis __fetch_message_name bounds its paging with `{unparse(lp.test)}`{' / break' if brk else ''} (extra condition {extra}): only the first page(s) of the queue are ever inspected, "
+              "so when they are filled with messages for other topics (or not yet due) this consumer never reaches its own deliverable messages - the worker stalls with work waiting", node=lp,
+              instance="redis fetch exhaustive")
